@@ -308,6 +308,24 @@ def lean_build_and_audit(prop: str, thorough: bool):
 # ------------------------------------------------------------------------------------------------
 # known findings
 # ------------------------------------------------------------------------------------------------
+def source_drift(prop: str):
+    """anchored source files of the property (properties.jsonl anchors.files) whose content differs from the digest
+    recorded in anchors.json by tools/record_anchors.py on the tree the model was last validated against"""
+    import hashlib
+    path = os.path.join(VERIF, "anchors.json")
+    if not os.path.exists(path):
+        return []
+    rec = json.load(open(path)).get("files", {}).get(prop, {})
+    repo = os.environ.get("VERIF_REPO", "/repo")
+    out = []
+    for f, digest in sorted(rec.items()):
+        fp = os.path.join(repo, f)
+        cur = hashlib.sha256(open(fp, "rb").read()).hexdigest() if os.path.exists(fp) else None
+        if cur != digest:
+            out.append(f)
+    return out
+
+
 def load_known(prop: str):
     path = os.path.join(VERIF, "known_findings.json")
     if not os.path.exists(path):
